@@ -200,7 +200,10 @@ def run(ctx):
     ctx.bounds = {"lift": "all 25 alphabet gates (arity 1..3 on widths <= 3%s), every ordered tuple" % (", arity 4 on width 4" if quick else "; thorough: all on width 4"), "programs": "MaxQ=3, MaxLen=%d (+1 by concatenation)" % (1 if quick else 2), "native sets": 6}
     runs = [("lift3", dict(MaxQ=3, MaxLen=1, Alphabet="<-AlphabetAll", Mode='"lift"', Emitting=True)),
             ("lift4", dict(MaxQ=4, MaxLen=1, Alphabet="{11, 24}" if quick else "<-AlphabetAll", Mode='"lift"', Emitting=True)),
-            ("programs", dict(MaxQ=3, MaxLen=1 if quick else 2, Alphabet="<-AlphabetQuick", Mode='"programs"', Emitting=True))]
+            ("programs", dict(MaxQ=3, MaxLen=1 if quick else 2, Alphabet="<-AlphabetQuick", Mode='"programs"', Emitting=True)),
+            # longer programs over a tiny alphabet (H, CNOT, two phase operations) on two qubits: the native / non-native split with
+            # phase operations before, between and after gates of either class (phase, gate, phase in ONE non-native run, ...)
+            ("split", dict(MaxQ=2, MaxLen=3 if quick else 4, Alphabet="{1, 5}", Mode='"programs"', Emitting=True))]
     for name, consts in runs:
         res = ctx.tlc("CircuitSem", constants=consts, invariants=INV, action_constraints=["Emit"], view="ViewNoGm", coverage=False, timeout=3000)
         if len(res.emitted) < 20:
